@@ -274,13 +274,113 @@ func sorted(xs []string) []string {
 func eq(a, b []string) bool { return strings.Join(a, "\x01") == strings.Join(b, "\x01") }
 
 func scan(roots []*memfs.Node, exs []filesystem.Extractor, dets []detector.Detector) (*scalibr.ScanResult, observed) {
+	return scanAt(roots, nil, exs, dets)
+}
+
+// scanAt is scan with host paths for the roots (nil: virtual roots) and, if paths are given,
+// StoreAbsolutePath switched on.
+func scanAt(roots []*memfs.Node, paths []string, exs []filesystem.Extractor, dets []detector.Detector) (*scalibr.ScanResult, observed) {
 	var sr []*scalibrfs.ScanRoot
-	for _, r := range roots {
-		sr = append(sr, &scalibrfs.ScanRoot{FS: memfs.New(r), Path: ""})
+	for i, r := range roots {
+		p := ""
+		if paths != nil {
+			p = paths[i]
+		}
+		sr = append(sr, &scalibrfs.ScanRoot{FS: memfs.New(r), Path: p})
 	}
-	cfg := &scalibr.ScanConfig{FilesystemExtractors: exs, Detectors: dets, Capabilities: &plugin.Capabilities{}, ScanRoots: sr}
+	cfg := &scalibr.ScanConfig{FilesystemExtractors: exs, Detectors: dets, Capabilities: &plugin.Capabilities{}, ScanRoots: sr, StoreAbsolutePath: paths != nil}
 	res := scalibr.New().Scan(context.Background(), cfg)
 	return res, observe(res)
+}
+
+// statusSet describes plugin statuses up to the order of the lines of a failure reason (the
+// reason is free text assembled in walk order; which files failed is content, their order is not).
+func statusSet(res *scalibr.ScanResult) []string {
+	var out []string
+	for _, s := range res.PluginStatus {
+		lines := strings.Split(s.Status.FailureReason, "\n")
+		sort.Strings(lines)
+		out = append(out, fmt.Sprintf("%s=%v[%s]", s.Name, s.Status.Status, strings.Join(lines, "|")))
+	}
+	sort.Strings(out)
+	return out
+}
+
+// failingFamily: one extractor fails on every file of a directory holding N files; the files are
+// listed in several orders and split over two roots. The plugin status (enum and the set of
+// reported failures) must not depend on the listing order, and the two-root scan must report the
+// union of what the single-root scans report.
+func failingFamily(r *ev.Run) {
+	fail := func() []filesystem.Extractor {
+		return []filesystem.Extractor{&scankit.Ex{N: "ex-f", Req: scankit.ReqAlways, Out: func(e *scankit.Ex, in *filesystem.ScanInput, _ []byte, _ error) (inventory.Inventory, error) {
+			if strings.HasSuffix(in.Path, "ok.pkg") {
+				return inventory.Inventory{Packages: []*extractor.Package{{Name: "ok", Version: "1", Locations: []string{in.Path}}}}, nil
+			}
+			return inventory.Inventory{}, fmt.Errorf("cannot parse %s", in.Path)
+		}}}
+	}
+	for _, n := range ev.Pick(r, []int{1, 2, 3, 9, 10, 11, 12, 25}, []int{1, 2, 3, 4, 5, 9, 10, 11, 12, 13, 25, 64, 101, 257}) {
+		var files []*memfs.Node
+		for i := 0; i < n; i++ {
+			files = append(files, memfs.F(fmt.Sprintf("f%03d.pkg", i), "x"))
+		}
+		orders := map[string][]*memfs.Node{"identity": files}
+		rev := make([]*memfs.Node, n)
+		for i := range files {
+			rev[n-1-i] = files[i]
+		}
+		orders["reversed"] = rev
+		orders["rotated-by-1"] = append(append([]*memfs.Node{}, files[1:]...), files[0])
+		orders["rotated-by-half"] = append(append([]*memfs.Node{}, files[n/2:]...), files[:n/2]...)
+		var inter []*memfs.Node
+		for i := 0; i < n; i += 2 {
+			inter = append(inter, files[i])
+		}
+		for i := 1; i < n; i += 2 {
+			inter = append(inter, files[i])
+		}
+		orders["evens-then-odds"] = inter
+		for _, withOK := range []bool{false, true} {
+			mk := func(fs []*memfs.Node) *memfs.Node {
+				kids := append([]*memfs.Node{}, fs...)
+				if withOK {
+					kids = append(kids, memfs.F("ok.pkg", "x"))
+				}
+				return memfs.D("", memfs.D("a", kids...))
+			}
+			resRef, _ := scan([]*memfs.Node{mk(files)}, fail(), nil)
+			ref := statusSet(resRef)
+			for name, o := range orders {
+				res, _ := scan([]*memfs.Node{mk(o)}, fail(), nil)
+				r.Evals.Add(1)
+				r.Nontrivial.Add(1)
+				if got := statusSet(res); !eq(got, ref) {
+					r.Violation("status-depends-on-enumeration", fmt.Sprintf("%d failing files (ok file: %v) listed %s: statuses %q, canonical listing %q", n, withOK, name, got, ref), map[string]any{"failing_files": n, "listing": name, "with_ok_file": withOK})
+				}
+			}
+			if n >= 2 {
+				a, b := mk(files[:n/2]), mk(files[n/2:])
+				ra, _ := scan([]*memfs.Node{a}, fail(), nil)
+				rb, _ := scan([]*memfs.Node{b}, fail(), nil)
+				rab, _ := scan([]*memfs.Node{a, b}, fail(), nil)
+				r.Evals.Add(1)
+				lines := func(res *scalibr.ScanResult) []string {
+					var out []string
+					for _, s := range res.PluginStatus {
+						if s.Status.FailureReason != "" {
+							out = append(out, strings.Split(s.Status.FailureReason, "\n")...)
+						}
+					}
+					sort.Strings(out)
+					return out
+				}
+				want := sorted(append(lines(ra), lines(rb)...))
+				if got := lines(rab); !eq(got, want) {
+					r.Violation("multi-root-status-not-union", fmt.Sprintf("%d failing files split over two roots: failures reported %q, the single-root scans report %q", n, got, want), map[string]any{"failing_files": n, "with_ok_file": withOK})
+				}
+			}
+		}
+	}
 }
 
 // sortedness checks the documented order on the emitted slices.
@@ -422,6 +522,21 @@ func main() {
 					if len(union.pkgFull) > 0 {
 						r.Nontrivial.Add(1)
 					}
+					// the same selection with host paths /r0, /r1, ... and absolute locations
+					{
+						var paths []string
+						var unionAbs []string
+						for j, k := range cur {
+							paths = append(paths, fmt.Sprintf("/r%d", j))
+							_, o1 := scanAt([]*memfs.Node{tops[k]}, []string{fmt.Sprintf("/r%d", j)}, exs, nil)
+							unionAbs = append(unionAbs, o1.pkgFull...)
+						}
+						_, oa := scanAt(rs, paths, exs, nil)
+						r.Evals.Add(1)
+						if !eq(sorted(oa.pkgFull), sorted(unionAbs)) {
+							r.Violation("multi-root-packages-not-union", fmt.Sprintf("tree %s roots %v with host paths %v and StoreAbsolutePath: got %q want %q", ts, cur, paths, sorted(oa.pkgFull), sorted(unionAbs)), map[string]any{"tree": ts, "roots": cur, "absolute": true})
+						}
+					}
 					switch {
 					case !eq(sorted(o.pkgFull), sorted(union.pkgFull)):
 						r.Violation("multi-root-packages-not-union", fmt.Sprintf("tree %s roots %v: %d packages, union of single-root scans has %d: got %q want %q", ts, cur, len(o.pkgFull), len(union.pkgFull), sorted(o.pkgFull), sorted(union.pkgFull)), map[string]any{"tree": ts, "roots": cur})
@@ -459,7 +574,8 @@ func main() {
 		}
 		r.Set(fmt.Sprintf("trees_with_%d_nodes", n), len(trees))
 	}
+	failingFamily(r)
 	r.Set("bound", map[string]any{"max_nodes_completed": completed})
 	r.Assume("Go map iteration order itself cannot be controlled; its consequence (the order of the extractor/detector lists) is enumerated instead")
-	r.Finish(fmt.Sprintf("every tree with <=%d nodes over {dir a, dir b, f1.pkg..f4.pkg with tying contents} x every combination of per-directory listing permutations x 10 extractor-list orders (all rotations of the canonical order and of its reverse) x 2 detector-list orders, all compared with the canonical-order scan of the same tree (key sequences, full multisets, statuses) + sortedness; plus every ordered selection of 2..3 roots among the top-level sub-trees and the whole tree vs the union of single-root scans. non-trivial = (tree, listing vector) with >=2 packages and a directory with >=2 entries, or a multi-root selection with >=1 package", maxNodes), completed == maxNodes)
+	r.Finish(fmt.Sprintf("every tree with <=%d nodes over {dir a, dir b, f1.pkg..f4.pkg with tying contents} x every combination of per-directory listing permutations x 10 extractor-list orders (all rotations of the canonical order and of its reverse) x 2 detector-list orders, all compared with the canonical-order scan of the same tree (key sequences, full multisets, statuses) + sortedness; plus every ordered selection of 2..3 roots among the top-level sub-trees and the whole tree vs the union of single-root scans, virtual roots and host-path roots with StoreAbsolutePath; plus the failing family: one extractor failing on N files (N up to 25, thorough 257) listed in 5 orders and split over two roots, statuses compared up to the order of failure-reason lines. non-trivial = (tree, listing vector) with >=2 packages and a directory with >=2 entries, or a multi-root selection with >=1 package", maxNodes), completed == maxNodes)
 }
